@@ -592,6 +592,9 @@ pub struct World {
 	pub onion: crate::onionline::OnionState,
 	pub corrupt_in_progress: bool,
 	pub last_reorg_step: u64,
+	/// nodes that revoked a holder commitment after handing it to the broadcaster (C05-2): the peer
+	/// may punish them, which the conservation oracle then reports as a consequence
+	pub revoked_after_broadcast: BTreeSet<usize>,
 	/// batch-sweep checks already made: (node, number of outputs, first outpoint)
 	pub batch_sweep_checked: BTreeSet<(usize, usize, bitcoin::OutPoint)>,
 	/// C08: nodes currently cut off; nodes that were ever cut off or gone; last HTLC views
@@ -780,6 +783,7 @@ impl World {
 			onion: Default::default(),
 			corrupt_in_progress: false,
 			last_reorg_step: 0,
+			revoked_after_broadcast: BTreeSet::new(),
 			batch_sweep_checked: BTreeSet::new(),
 			partitioned: BTreeSet::new(),
 			ever_unresponsive: BTreeSet::new(),
